@@ -266,7 +266,7 @@ def format_contracts(model, f, enforced=None, needed=None):
         tu.add('__CPROVER_assigns()')
         tu.add('__CPROVER_ensures(pdu == NULL ==> (uint64_t)__CPROVER_return_value == 0)', 'C11:null-read-returns-0')
         tu.add('__CPROVER_ensures(pdu != NULL ==> (uint64_t)__CPROVER_return_value == vp_get_bits(pdu->header, %d, %d))' % (s, n),
-               'C01:getter-value(%s=%d/%d)' % (row, s, n))
+               '%s:getter-value(%s=%d/%d)' % ('C01+C09' if (f.key == 'vss' and row == 'acf_msg_length') else 'C01', row, s, n))
         tu.add(';')
     # GetField
     p = f.getfield
@@ -299,7 +299,7 @@ def format_contracts(model, f, enforced=None, needed=None):
         tu.add('void vp_fit_%s(%s* pdu, uint64_t v)' % (p['name'], T))
         tu.add('__CPROVER_requires(%s && v <= VP_MASK64(%d) && __CPROVER_is_fresh(pdu, %d) && %s)' % (B('vp_fit_' + p['name'], 'vp_wv == v'), n, H, B('vp_fit_' + p['name'], bind_hdr(H))))
         tu.add('__CPROVER_assigns(__CPROVER_object_upto(pdu->header, %d))' % H)
-        tu.add('__CPROVER_ensures(vp_get_bits(pdu->header, %d, %d) == v)' % (s, n), 'C02:setter-carries-every-fitting-value(%s)' % row)
+        tu.add('__CPROVER_ensures(vp_get_bits(pdu->header, %d, %d) == v)' % (s, n), '%s:setter-carries-every-fitting-value(%s)' % ('C02+C09' if (f.key == 'vss' and row == 'acf_msg_length') else 'C02', row))
         tu.add(';')
     # SetField
     p = f.setfield
